@@ -10,6 +10,7 @@ import Aegean.Model.C07
 import Aegean.Spec.C07
 import Aegean.Proofs.Tiling
 import Aegean.Proofs.C07
+import Aegean.Proofs.C07Data
 
 namespace Aegean.Properties.C07
 open Aegean.Model.C07 Aegean.Proofs.C07 Aegean.Tiling
@@ -403,5 +404,103 @@ theorem no_reset_same_schedule_completes :
          .adv 0, .adv 0, .adv 1, .adv 1, .adv 0]).map
       (fun s => (view 2 s, allDone (repaired 2 2 true) s)) =
       some (([.done, .done], ⟨0, .filling⟩), true) := by decide
+
+
+/-! ## 4. The shared maps: every pixel written, same result for every schedule and worker count -/
+
+/-- the maps a complete run leaves behind, as a function of the layout, the (abstract) numerical work and
+    `mask` only — no schedule, no pool size -/
+def finalMaps {V : Type} (L : Layout) (W : Work V) (n : Nat) (mask : Bool) : Maps V :=
+  { bkg := fun r => (ownerOf L n r).map (fun j => mIf W mask r (W.f1 j r)),
+    rms := fun r => (ownerOf L n r).map (fun j => mIf W mask r (W.f2 j r (fullBkg L W n))) }
+
+/-- **bkg_stable_while_pass2**: in every reachable fault-free state, while some stripe is in pass 2 (the only
+    phase that reads the shared background map) no stripe is in a phase that writes it: all have finished
+    pass 1 and none has started masking.  Pass 2 therefore reads only rows that are final, whenever and in
+    whatever order it reads them. -/
+theorem bkg_stable_while_pass2 {c : Cfg} (R : Repaired c) (hn : 0 < c.n) {s : State} (h : Reach c false s)
+    {i : Nat} (hi : i < c.n) (hp : s.ph i = .pass2) :
+    ∀ j, j < c.n → s.ph j ≠ .queued ∧ s.ph j ≠ .pass1 ∧ s.ph j ≠ .masking ∧ ¬ (s.ph j = .done ∧ c.mask = true) := by
+  intro j hj
+  have := stable_in_pass2 (reach_good R hn h) hi hp j hj
+  refine ⟨?_, ?_, this.2.2, ?_⟩
+  · intro e; rw [e] at this; simp [fin1] at this
+  · intro e; rw [e] at this; simp [fin1] at this
+  · rintro ⟨e, hm⟩; rw [e] at this; simp [masked, hm] at this
+
+/-- **maps_of_complete_run**: a complete fault-free run of the repaired protocol leaves exactly `finalMaps` -/
+theorem maps_of_complete_run {V : Type} {c : Cfg} {L : Layout} {W : Work V} (R : Repaired c) (hn : 0 < c.n)
+    (hd : Disj L c.n) {s : State} {m : Maps V} (h : ReachD c L W s m) (hdone : ∀ i, i < c.n → s.ph i = .done) :
+    m = finalMaps L W c.n c.mask := by
+  have D := reachD_inv R hn hd h
+  have hb : m.bkg = (finalMaps L W c.n c.mask).bkg := by
+    funext r
+    rw [D.bkg r]; simp only [finalMaps]
+    cases ho : ownerOf L c.n r with
+    | none => rfl
+    | some j => simp [hdone j (ownerOf_some ho).1, fin1, masked]
+  have hr : m.rms = (finalMaps L W c.n c.mask).rms := by
+    funext r
+    rw [D.rms r]; simp only [finalMaps]
+    cases ho : ownerOf L c.n r with
+    | none => rfl
+    | some j => simp [hdone j (ownerOf_some ho).1, fin2, masked]
+  cases m; simp_all
+
+/-- **schedule_independent**: any two complete fault-free runs over the same layout — whatever the
+    interleavings and whatever the two pool sizes (worker counts) — end with identical maps -/
+theorem schedule_independent {V : Type} {c₁ c₂ : Cfg} {L : Layout} {W : Work V}
+    (R₁ : Repaired c₁) (R₂ : Repaired c₂) (hn : 0 < c₁.n) (hsame : c₁.n = c₂.n) (hmask : c₁.mask = c₂.mask)
+    (hd : Disj L c₁.n) {s₁ s₂ : State} {m₁ m₂ : Maps V}
+    (h₁ : ReachD c₁ L W s₁ m₁) (h₂ : ReachD c₂ L W s₂ m₂)
+    (d₁ : ∀ i, i < c₁.n → s₁.ph i = .done) (d₂ : ∀ i, i < c₂.n → s₂.ph i = .done) : m₁ = m₂ := by
+  rw [maps_of_complete_run R₁ hn hd h₁ d₁, maps_of_complete_run R₂ (by omega) (by rw [← hsame]; exact hd) h₂ d₂,
+    hsame, hmask]
+
+/-- **all_rows_written**: after a complete run every row owned by a stripe is written in both maps
+    (with `layout_tiles`: every row of the image) -/
+theorem all_rows_written {V : Type} {c : Cfg} {L : Layout} {W : Work V} (R : Repaired c) (hn : 0 < c.n)
+    (hd : Disj L c.n) {s : State} {m : Maps V} (h : ReachD c L W s m) (hdone : ∀ i, i < c.n → s.ph i = .done)
+    (i r : Nat) (hi : i < c.n) (ho : owns L i r) : (m.bkg r).isSome = true ∧ (m.rms r).isSome = true := by
+  rw [maps_of_complete_run R hn hd h hdone]
+  simp [finalMaps, ownerOf_of_owns hd hi ho]
+
+/-- the regenerated layout has disjoint stripes, so the theorems above apply to it -/
+theorem layout_disj (rows ns w : Nat) (hr : 1 ≤ rows) (hw : 1 ≤ w) :
+    Disj { lo := cut rows ns w, hi := fun i => cut rows ns w (i + 1) } (stripes rows ns w) := by
+  intro i j r hi hj hoi hoj
+  exact band_unique (cut_stepMono rows ns w hr hw) r i j hi hj hoi.1 hoi.2 hoj.1 hoj.2
+
+/-! ## 5. Shared memory is released on every exit path -/
+
+/-- every execution of `try: body finally: fin` is an execution of `body` followed by an execution of `fin` -/
+theorem finally_always (body fin : Prog) (t : List Ev) (o : Outcome)
+    (h : (t, o) ∈ (Prog.tryFinally body fin).runs) :
+    ∃ tb ob tf of_, (tb, ob) ∈ body.runs ∧ (tf, of_) ∈ fin.runs ∧ t = tb ++ tf := by
+  simp only [Prog.runs, List.mem_flatMap, List.mem_map] at h
+  obtain ⟨⟨tb, ob⟩, hb, ⟨tf, of_⟩, hf, e⟩ := h
+  simp only [Prod.mk.injEq] at e
+  exact ⟨tb, ob, tf, of_, hb, hf, e.1.symm⟩
+
+/-- the `finally:` block has exactly one execution: close and unlink both segments -/
+theorem release_runs : releaseProg.runs = [([.closeBkg, .unlinkBkg, .closeRms, .unlinkRms], .normal)] := by decide
+
+/-- **shm_released**: every exit path of `filter_mc_sharemem` — normal return, an exception from a worker
+    re-raised by `get()`, `KeyboardInterrupt`, a failure while setting up the pool — ends with
+    `ibkg.close(); ibkg.unlink(); irms.close(); irms.unlink()` -/
+theorem shm_released (t : List Ev) (o : Outcome) (h : (t, o) ∈ parentProg.runs) :
+    ∃ tb, t = tb ++ [.closeBkg, .unlinkBkg, .closeRms, .unlinkRms] := by
+  obtain ⟨tb, _, tf, of_, _, hf, e⟩ := finally_always bodyProg releaseProg t o h
+  rw [release_runs] at hf
+  simp at hf
+  exact ⟨tb, by rw [e, hf.1]⟩
+
+/-- non-vacuity: the exit paths include a normal return, a worker exception and an interrupt -/
+example : ([Ev.createBkg, .createRms, .setup, .mapGet, .collect, .closeBkg, .unlinkBkg, .closeRms, .unlinkRms], Outcome.normal)
+    ∈ parentProg.runs ∧
+  ([Ev.createBkg, .createRms, .setup, .poolTerminate, .closeBkg, .unlinkBkg, .closeRms, .unlinkRms], Outcome.raised)
+    ∈ parentProg.runs ∧
+  ([Ev.createBkg, .createRms, .setup, .poolClose, .closeBkg, .unlinkBkg, .closeRms, .unlinkRms], Outcome.normal)
+    ∈ parentProg.runs := by decide
 
 end Aegean.Properties.C07
